@@ -366,3 +366,52 @@ class Write(Contract):
 def registry():
     from contracts import posix_shell
     return posix_shell.registry() + [EscapeStr(), Write()]
+
+
+# ---- directory sentinels: the mkdir recipe quotes the directory it derives from the target -------------------
+
+import bfg9000.backends.make.writer as mwriter
+
+
+class DirectoryRule(Contract):
+    """make writer directory_rule: the pattern rule `%/.dir` creates the directory with
+    `mkdir -p '$(patsubst %/.dir,%,$@)'` -- the derived directory name is passed *quoted* (it is the expansion of a
+    target name and may contain blanks or shell characters), and the sentinel is touched as '$@' (quoted)."""
+    target = 'bfg9000/backends/make/writer.py::directory_rule'
+    properties = ('C04',)
+
+    def params(self, cx, case):
+        from specs.stubs import EnvStub
+        from pyvc.values import OpaqueFn, PDict
+
+        def mkdir_p(I2, a2, k2):
+            I2.events.append(('mkdir_p', a2, dict(k2)))
+            return PList(['mkdir', '-p', a2[0]])
+        env = Obj(EnvStub, {'_tools': PDict({'mkdir_p': OpaqueFn('mkdir_p', mkdir_p)})})
+        return {'build_inputs': Obj(object, {}), 'buildfile': Obj(msyn.Makefile, {}), 'env': env}
+
+    def opaque_calls(self):
+
+        def rule(I, args, kwargs, node):
+            I.events.append(('rule', args[1:], dict(kwargs)))
+            return None
+        return {msyn.Makefile.__dict__['rule']: rule}
+
+    def ensures(self, a, r):
+        mk = [e for e in a.events if e[0] == 'mkdir_p']
+        rl = [e for e in a.events if e[0] == 'rule']
+        out = {'one_pattern_rule_with_one_mkdir': z3.BoolVal(len(mk) == 1 and len(rl) == 1)}
+        if len(mk) == 1 and len(rl) == 1:
+            arg = mk[0][1][0]
+            isfn = isinstance(arg, Obj) and arg.cls is msyn.Function
+            out['derived_directory_is_passed_quoted'] = z3.BoolVal(isfn and arg.attrs.get('quoted') is True and
+                                                                   arg.attrs.get('name') == 'patsubst')
+            tgt = rl[0][2].get('target')
+            out['rule_is_for_the_sentinel_pattern'] = z3.BoolVal(isinstance(tgt, Obj) and tgt.cls is msyn.Pattern and
+                                                                 tgt.attrs.get('path') == '%/.dir')
+        return out
+
+
+def registry():
+    from contracts import posix_shell
+    return posix_shell.registry() + [EscapeStr(), Write(), DirectoryRule()]
